@@ -68,6 +68,50 @@ Fixpoint cnt_list (loc : bytes) (l : list tree) : N * N :=
   | [] => (0, 0)%N
   | k :: r => let a := cnt_node loc k in let b := cnt_list loc r in (fst a + fst b, snd a + snd b)%N
   end.
+(* ---- the same traversal WITH the node cache (TreeRewriter.replaces, DisableNodeCache = false) ----
+   [tid] stands for the tree ID (content hash) of a list of children.  A cache hit returns the stored result
+   whatever the current path is; null results are not stored. *)
+Variable tid : list tree -> N.
+Definition cache := list (N * list tree).
+Fixpoint lookup (k : N) (st : cache) : option (list tree) :=
+  match st with
+  | [] => None
+  | (k', v) :: r => if N.eqb k k' then Some v else lookup k r
+  end.
+
+Fixpoint rwc_node (st : cache) (loc : bytes) (n : tree) : option tree * cache :=
+  match n with
+  | Node name kind size meta kids =>
+      let p := desc loc name in
+      if negb (kn p (is_dir kind)) then (None, st)
+      else if is_dir kind then
+        match lookup (tid kids) st with
+        | Some ks => (Some (Node name kind size meta ks), st)
+        | None =>
+            let '(ks, st1) :=
+              (fix go (st : cache) (l : list tree) : list tree * cache :=
+                 match l with
+                 | [] => ([], st)
+                 | k :: r => let '(o, st') := rwc_node st p k in
+                             let '(rs, st'') := go st' r in
+                             (match o with Some k' => k' :: rs | None => rs end, st'')
+                 end) st kids in
+            if andb (is_nil ks) (negb (ke p)) then (None, st1)
+            else (Some (Node name kind size meta ks), (tid kids, ks) :: st1)
+        end
+      else (Some n, st)
+  end.
+Fixpoint rwc_list (st : cache) (loc : bytes) (l : list tree) : list tree * cache :=
+  match l with
+  | [] => ([], st)
+  | k :: r => let '(o, st') := rwc_node st loc k in
+              let '(rs, st'') := rwc_list st' loc r in
+              (match o with Some k' => k' :: rs | None => rs end, st'')
+  end.
+
+(* RewriteTree's answer for one directory, without cache: None = null ID *)
+Definition rw_dir (p : bytes) (kids : list tree) : option (list tree) :=
+  let ks := rw_list p kids in if andb (is_nil ks) (negb (ke p)) then None else Some ks.
 End Rewrite.
 
 (* ---- listing (specification side and observations) ---- *)
